@@ -3,7 +3,7 @@ import GMGProofs.Lemmas.Setup1
 # Helper lemmas for C20s — no cycle writes a level right-hand side (no hypothesis on the level count)
 -/
 namespace Setup
-open Cycle
+open MGCycle
 
 /-- no instruction of the program writes a `.rhs` buffer -/
 def noRhsWrite (p : List Instr) : Bool := p.all fun i => (writes i).all fun r => r.2 != Buf.rhs
@@ -20,7 +20,7 @@ theorem noRhsWrite_replicate (n : Nat) (i : Instr) (h : (writes i).all (fun r =>
   | zero => rfl
   | succ n ih => rw [List.replicate_succ, noRhsWrite_cons, h, ih]; rfl
 
-theorem plain_noRhsWrite (cy : Cycle.Cfg) :
+theorem plain_noRhsWrite (cy : MGCycle.Cfg) :
     ∀ (fuel : Nat) (k : Kind) (d : Nat) (x rhs tmp : Ref), x.2 ≠ Buf.rhs → tmp.2 ≠ Buf.rhs →
       noRhsWrite (plain cy k fuel d x rhs tmp) = true := by
   intro fuel
@@ -40,7 +40,7 @@ theorem exSm_write (fgs : Bool) (d : Nat) (x rhs tmp : Ref) (hx : x.2 ≠ Buf.rh
     (writes (exSm fgs d x rhs tmp)).all (fun r => r.2 != Buf.rhs) = true := by
   unfold exSm; split <;> simp [writes, hx, ht]
 
-theorem extrap_noRhsWrite (cy : Cycle.Cfg) (k : Kind) (fgs : Bool) (d : Nat) (x rhs tmp : Ref) (hx : x.2 ≠ Buf.rhs)
+theorem extrap_noRhsWrite (cy : MGCycle.Cfg) (k : Kind) (fgs : Bool) (d : Nat) (x rhs tmp : Ref) (hx : x.2 ≠ Buf.rhs)
     (ht : tmp.2 ≠ Buf.rhs) : noRhsWrite (extrap cy k fgs d x rhs tmp) = true := by
   have hrec : ∀ k' f, noRhsWrite (plain cy k' f (d + 1) (d + 1, .res) (d + 1, .err) (d + 1, .sol)) = true :=
     fun k' f => plain_noRhsWrite cy f k' (d + 1) _ _ _ (by simp) (by simp)
@@ -50,7 +50,7 @@ theorem extrap_noRhsWrite (cy : Cycle.Cfg) (k : Kind) (fgs : Bool) (d : Nat) (x 
   · simp [noRhsWrite, writes, hx, ht]
   · cases k <;> simp [noRhsWrite_append, noRhsWrite_cons, hrec, writes, hx, ht] <;> simp [noRhsWrite]
 
-theorem cycleAt_noRhsWrite (cy : Cycle.Cfg) (k : Kind) (ex fgs : Bool) (d : Nat) :
+theorem cycleAt_noRhsWrite (cy : MGCycle.Cfg) (k : Kind) (ex fgs : Bool) (d : Nat) :
     noRhsWrite (cycleAt cy k ex fgs d) = true := by
   unfold cycleAt
   split
